@@ -549,12 +549,21 @@ class TFLiteSupportedOperators:
 
     @staticmethod
     def constraint_split_ofm_batch(op):
-        "OFM Tensor batch size must be 1"
+        "OFM Tensor batch size must be 1 and each OFM must be taken from a single batch of the IFM"
         valid = True
         extra = []
+        ifm_batch_size = full_shape(4, op.ifm.shape, 1)[0] if op.ifm is not None else 1
         for tens in op.outputs:
             if tens is not None:
                 batch_size = full_shape(4, tens.shape, 1)[0]
+                if batch_size == 1 and ifm_batch_size != 1 and len(tens.shape) < 4:
+                    # The OFM has a lower rank than the IFM: it lies within one batch only if the batch axis was removed
+                    if op.type == Op.Unpack:
+                        batch_axis_removed = op.attrs.get("axis", 0) in (0, -4)
+                    else:
+                        batch_axis_removed = op.type == Op.StridedSlice and op.attrs.get("shrink_axis_mask", 0) & 1 == 1
+                    if not batch_axis_removed:
+                        batch_size = ifm_batch_size
                 if batch_size != 1:
                     valid = False
                     extra.append(f"Tensor '{tens.name}' has batch size: {batch_size}")
